@@ -44,6 +44,11 @@ type FnReport struct {
 	Mode     string
 	Secs     float64
 	Contract *Contract
+	fn       *ssa.Function
+	prog     *ssa.Program
+	preds    map[string]predDef
+	params   []paramSym
+	bitsSyms map[string]string
 }
 
 // contractDirs finds every package directory of /repo that has a contract file.
@@ -559,6 +564,7 @@ func verifyAll(prog *ssa.Program, ix fnIndex, mine []*Contract, all map[string]*
 		if e == nil {
 			continue
 		}
+		rep.fn, rep.prog, rep.preds, rep.params, rep.bitsSyms = fn, prog, preds, e.paramSyms, e.bitsSyms
 		rep.Havocs = sortedKeys(e.havocs)
 		rep.Assumed = sortedKeys(e.assumedStd)
 		for _, ob := range e.obls {
